@@ -14,14 +14,15 @@ def _quiet():
     logging.disable(logging.CRITICAL)
 
 
-def random_mesh(rng, n=None):
+def random_mesh(rng, n=None, scale=1.0):
+    """scale: the same triangulation stated in another length unit (Mesh.from_triangulation takes coordinates in any unit: metres, nm, ...)"""
     from tdgl.finite_volume.mesh import Mesh
     from scipy.spatial import Delaunay
     _quiet()
     n = n or int(rng.integers(8, 30))
     pts = rng.uniform(0, 1, size=(n, 2)) * np.array([rng.uniform(0.5, 3), rng.uniform(0.5, 3)])
     tri = Delaunay(pts)
-    return Mesh.from_triangulation(pts, tri.simplices, create_submesh=True)
+    return Mesh.from_triangulation(pts * scale, tri.simplices, create_submesh=True)
 
 
 def dense_specs(mesh, A=None, fixed=None):
@@ -64,7 +65,8 @@ def search(seed=0, trials=40, tol=1e-9):
     bad = []
     n_cmp = 0
     for t in range(trials):
-        mesh = random_mesh(rng)
+        scale = (1.0, 1.0, 1e-9, 1e6, 1e-4)[t % 5]          # coordinates in units of order one, and the same kind of mesh in metres / nm / ...
+        mesh = random_mesh(rng, scale=scale)
         E = len(mesh.edge_mesh.edges)
         N = len(mesh.sites)
 
@@ -72,10 +74,10 @@ def search(seed=0, trials=40, tol=1e-9):
             nonlocal n_cmp
             n_cmp += 1
             got = got.toarray() if hasattr(got, "toarray") else np.asarray(got)
-            err = np.abs(got - want).max() / (1 + np.abs(want).max())
+            err = np.abs(got - want).max() / ((1 if scale == 1.0 else 0) + np.abs(want).max() + 1e-300)
             if not err < tol:
-                bad.append(dict(what=name, trial=t, seed=seed, n_sites=N, n_edges=E, max_rel_err=float(err), **info))
-        A = rng.normal(size=(E, 2)) * rng.choice([0, 0.3, 3])
+                bad.append(dict(what=name, trial=t, seed=seed, n_sites=N, n_edges=E, length_scale_of_the_coordinates=scale, max_rel_err=float(err), **info))
+        A = rng.normal(size=(E, 2)) * rng.choice([0, 0.3, 3]) / scale
         nfix = int(rng.integers(0, max(1, N // 3)))
         fixed = rng.choice(N, size=nfix, replace=False).astype(np.int64)
         D, G, _, Bm = dense_specs(mesh)
@@ -133,7 +135,7 @@ def search(seed=0, trials=40, tol=1e-9):
                     rhs = Ls0.real @ rng.normal(size=N)
                     x = mo.mu_laplacian_lu(rhs)
                     n_cmp += 1
-                    res = np.abs(Ls0.real @ x - rhs).max() / (1 + np.abs(rhs).max())
+                    res = np.abs(Ls0.real @ x - rhs).max() / ((1 if scale == 1.0 else 0) + np.abs(rhs).max() + 1e-300)
                     if not res < 1e-6:
                         bad.append(dict(what=f"build_operators.factorisation_solves_the_scalar_laplacian[{solver.name}]", trial=t, residual=float(res)))
         for fix_psi in (True, False):
@@ -146,9 +148,9 @@ def search(seed=0, trials=40, tol=1e-9):
                 elif kind == "repeat" and seq:
                     Ac = seq[-1].copy()
                 elif kind == "small":
-                    Ac = (seq[-1] if seq else np.zeros((E, 2))) + 1e-3 * rng.normal(size=(E, 2))
+                    Ac = (seq[-1] if seq else np.zeros((E, 2))) + 1e-3 * rng.normal(size=(E, 2)) / scale
                 else:
-                    Ac = rng.normal(size=(E, 2)) * 2
+                    Ac = rng.normal(size=(E, 2)) * 2 / scale
                 seq.append(Ac)
                 mo.set_link_exponents(Ac)
                 _, Gs, Ls, _ = dense_specs(mesh, Ac, fixed if fix_psi else None)
